@@ -94,12 +94,12 @@ class Storages:
 class Player:
     """Plays one study through the real API and logs the calls as trace events."""
 
-    def __init__(self, c, storages, skind="mem", name=None):
+    def __init__(self, c, storages, skind="mem", name=None, pruner=None):
         import optuna
 
         self.c = c
         self.skind = skind
-        self.pruner = build_pruner(c)
+        self.pruner = pruner if pruner is not None else build_pruner(c)
         self.study = optuna.create_study(
             storage=storages.get(skind), study_name=name or storages.fresh_name(),
             direction="minimize" if c["dir"] == "min" else "maximize",
@@ -371,19 +371,21 @@ def play_random(rng, storages, skind, kind=None):
 def bracket_trace(rng, storages, params, names, n_numbers):
     """Brackets the real HyperbandPruner assigns, observed for the same (study name, number) pairs on a fresh
     in-memory storage, on in-memory / sqlite storages whose trial ids are offset, with different histories
-    and separate pruner instances."""
+    and separate pruner instances, and with one pruner object shared by studies in different storages."""
     import optuna
 
     ev = []
     c = dict(params, kind="hyperband", dir="min")
-    for skind in ("mem", "memoff", "sqlite", "mem"):
-        for name in names:
+    shared = build_pruner(c)      # ONE pruner object serving studies in different storages (trial ids collide)
+    for skind in ("mem", "memoff", "sqlite", "mem", "mem+shared", "mem+shared", "memoff+shared"):
+        skind, _, mode = skind.partition("+")
+        for name in (names if not mode else list(reversed(names))):
             st = storages.get(skind)
             try:
                 optuna.delete_study(study_name=name, storage=st)
             except KeyError:
                 pass
-            p = Player(c, storages, skind, name=name)
+            p = Player(c, storages, skind, name=name, pruner=shared if mode else None)
             for _ in range(n_numbers):
                 t = p.new()
                 if rng.random() < 0.5:
